@@ -77,7 +77,7 @@ impl Pools {
         Self {
             pools: sizes
                 .iter()
-                .map(|&n| (n, rayon::ThreadPoolBuilder::new().num_threads(n).build().unwrap()))
+                .map(|&n| (n, rayon::ThreadPoolBuilder::new().num_threads(n).stack_size(1 << 27).build().unwrap()))
                 .collect(),
         }
     }
